@@ -71,6 +71,10 @@ CLAIMS = {
    text="Lean 4 theorems: an n-bit field written MSB-first is read back exactly (all widths, all values); a start code at the current position is recognised at any alignment; for every Sorenson Spark header (all versions, temporal references, the seven size codes incl. 8/16-bit custom sizes and the reserved code, picture types, deblocking flag, quantizers, any list of extra-information bytes) parsing the encoded header yields exactly the specified record and consumes exactly the header's bits, whatever follows. The standard H.263 header parser (PTYPE, PLUSPTYPE/OPPTYPE/MPPTYPE with inheritance, CPFMT/EPAR, CPCFC/ETR, UUI, SSS, ELNUM/RLNUM, RPSMF, TRPI/TRP, BCI, CPM/PSBI, PB fields, PEI) is modelled in full and compared field for field with the real parser and with the specification's expected header on exhaustive-per-field header descriptions, incl. every wrong fixed marker.",
    note="PARTIAL: the round-trip theorem is proved for Sorenson headers; for standard headers the same statement is carried by the three-way correspondence (implementation = model = specification) only. The clause `a decoded picture reports the header it was decoded from` is covered by the P-line digests (tr, type, quantizer, options, size). Baseline headers are exercised without the scalability option; UFEP=000 inheritance uses synthesised previous headers (the parser demands RPRP after any header that carries a format). Axioms: propext, Classical.choice, Quot.sound.",
    design="DESIGN.md §4 C06", technique="Lean 4 proof (encoder/parser round trip by symbolic evaluation) + exhaustive-per-field three-way correspondence"),
+ "C14": dict(
+   text="Lean 4 theorems over a concrete model of the reader (source, retained buffer, bits_read): skip_bits consumes exactly n bits or, at end of data, nothing; fetching bytes for a peek or a failed read changes nothing observable; rollback to a checkpoint restores exactly the checkpoint's bits (all fetched bytes retained) and never fails when no commit intervened; commit keeps bits, alignment phase and well-formedness; on the specification machine, start-code recognition reports only genuine start codes, the nearest one, within realignment+1 <= 8 skipped bits, and consumes nothing. The concrete model, including peek_bits' accumulation loop, and the specification machine are both run against the real H263Reader on bounded-exhaustive and random nested operation scripts.",
+   note="PARTIAL: `peek_bits returns the MSB-first value of the next n bits` (the per-byte accumulate loop) and the script-level refinement `run_refines` are carried by the three-way correspondence, not yet by theorems. Scope: signed reads of width 0, commit inside an open transaction and bare failed read_vlc are excluded / treated as documented (see evidence assumptions). Axioms: propext, Classical.choice, Quot.sound.",
+   design="DESIGN.md §4 C14", technique="Lean 4 proof (reader invariants, start-code soundness) + three-way script correspondence"),
 }
 
 PENDING = {}
